@@ -137,6 +137,7 @@ Init == /\ \E nr \in NrSet, nt \in NtSet :
           \E h \in [1..(nr - 1) -> Sp], kh \in [1..(nt \div 2) -> Sp], nc \in NcSet \cap (0..nr), r0 \in R0Set, dir \in BOOLEAN,
              pa \in PaSet :
              /\ (Period > 0 => \A i \in 1..(nr - 1 - Period) : h[i] = h[i + Period])
+             /\ (Period > 0 => \A j \in 1..(nt \div 2 - Period) : kh[j] = kh[j + Period])
              /\ g = [nr |-> nr, nt |-> nt, nc |-> nc, h |-> h, k |-> Double(kh), r0 |-> r0, dir |-> dir, pa |-> pa]
         /\ A = [c \in Nodes |-> RowOf(c)]
 Next == UNCHANGED vars
